@@ -22,6 +22,7 @@ def run(tier: str, seed: int, rep: Report, model: Model) -> dict:
     probes = gen["probes"]
     full = probes["111"]
     rep.rule = "all 8 availability masks, each in a fresh interpreter; exhaustive; non-trivial = at least one library missing"
+    rep.rule += '; the masks that leave numpy intact again with libraries failing by a plain ImportError (installed but broken)'
     rep.exhaustive = True
     for key, p in probes.items():
         n, t, j = (c == "1" for c in key)
